@@ -1451,6 +1451,13 @@ class Interp:
             if v[0] == "enum" and v[1] == SOME:
                 return self.apply(args[1], [v[2][0]], st, n)
             return [(OK, none(), st)] + self.apply(args[1], [unk("and_then")], st, n)
+        if callee in ("core::option::Option::<T>::is_some_and", "core::option::Option::<T>::is_none_or"):
+            v = self.deref_val(st, args[0])
+            some_and = callee.endswith("is_some_and")
+            if v[0] == "enum" and v[1] == NONE:
+                return [(OK, ("bool", not some_and), st)]
+            if v[0] == "enum" and v[1] == SOME:
+                return self.apply(args[1], [v[2][0]], st, n)
         if callee == "core::option::Option::<T>::filter":
             v = self.deref_val(st, args[0])
             if v[0] == "enum" and v[1] == NONE:
